@@ -58,6 +58,10 @@ PLAN = {
     "C20": [("plain", 4, 16), ("race", 2, 8), ("asan", 0, 4)],
 }
 
+# sanitizer builds run every n-th case of each family (they are 3-10x slower)
+SUBSAMPLE = {("race", "quick"): 8, ("race", "thorough"): 2, ("asan", "quick"): 8, ("asan", "thorough"): 2,
+             ("C18", "race", "quick"): 1, ("C18", "race", "thorough"): 1}
+
 WATCHDOG = {"quick": 900, "thorough": 5400}
 
 
@@ -132,6 +136,8 @@ def run_children(prop, tier, seed, plan, workdir, only=None):
             cmd = [binp, "run", prop, "-tier", tier, "-seed", str(seed), "-shard", "%d/%d" % (i, n), "-out", out]
             if only:
                 cmd += ["-only", only]
+            elif variant != "plain":
+                cmd += ["-subsample", str(SUBSAMPLE.get((prop, variant, tier), SUBSAMPLE.get((variant, tier), 1)))]
             env = dict(os.environ)
             env["VERIF_VARIANT"] = variant
             env["GOTRACEBACK"] = "all"
